@@ -58,6 +58,19 @@ public class JHarness {
     return "?:" + r.getClass().getName();
   }
 
+  /** what a caller may do with a result it owns: overwrite every mutable part.  If the implementation handed out its own tables instead of a copy,
+   *  later calls of the stream answer differently from C (whose results are caller-owned memory). */
+  static void scribble(Object r) {
+    try {
+      if (r instanceof compoundDataNIST) { compoundDataNIST c = (compoundDataNIST) r; Arrays.fill(c.Elements, -7); Arrays.fill(c.massFractions, -1.0); }
+      else if (r instanceof compoundData) { compoundData c = (compoundData) r; Arrays.fill(c.Elements, -7); Arrays.fill(c.massFractions, -1.0); Arrays.fill(c.nAtoms, -1.0); }
+      else if (r instanceof radioNuclideData) { radioNuclideData n = (radioNuclideData) r; Arrays.fill(n.XrayLines, 12345); Arrays.fill(n.XrayIntensities, -1.0); Arrays.fill(n.GammaEnergies, -1.0); Arrays.fill(n.GammaIntensities, -1.0); }
+      else if (r instanceof Crystal_Struct) { Crystal_Struct c = (Crystal_Struct) r; Arrays.fill(c.atom, null); }
+      else if (r instanceof String[]) Arrays.fill((String[]) r, "scribbled");
+      else if (r instanceof double[]) Arrays.fill((double[]) r, Double.NaN);
+    } catch (RuntimeException e) { /* immutable or null parts: nothing to overwrite */ }
+  }
+
   public static void main(String[] argv) throws Exception {
     if (argv.length >= 1 && argv[0].equals("--methods")) {
       // list "name arity" of every public static method, for the coverage comparison with the C headers
@@ -86,7 +99,7 @@ public class JHarness {
       if (cand == null) { out.println("X\tno-such-method"); continue; }
       // tokens that are not passed on: array placeholders, out parameters
       List<String> a = new ArrayList<>();
-      for (int i = 1; i < tok.length; i++) if (!tok[i].equals("-")) a.add(tok[i]);
+      for (int i = 1; i < tok.length; i++) if (!tok[i].equals("-") && !tok[i].equals("N")) a.add(tok[i]);
       Method m = null;
       for (Method c : cand) if (c.getParameterCount() == a.size()) m = c;
       if (m == null) { out.println("X\tno-such-arity\t" + a.size()); continue; }
@@ -114,6 +127,7 @@ public class JHarness {
       try {
         Object r = m.invoke(null, args);
         out.println("R\t" + enc(m.getReturnType() == void.class ? null : r) + "\tE\t-");
+        scribble(r);
       } catch (InvocationTargetException e) {
         Throwable c = e.getCause();
         out.println("R\t-\tE\t" + c.getClass().getSimpleName() + ":" + hex(String.valueOf(c.getMessage())));
